@@ -54,8 +54,8 @@ def run(ch: Checker) -> None:
     ch.rule('C01.7', 'client queue sites in proxy/http/proxy/server.py and core/base/tcp_tunnel.py are exactly {relay of received data, PROXY_TUNNEL_ESTABLISHED_RESPONSE_PKT under is_https_tunnel}; '
                      'that packet is `HTTP/1.1 200 Connection established`', 3)
     ch.rule('C01.9', 'the idle reaper never closes a connection that still holds undelivered relay data: is_inactive() requires an empty client buffer', 1)
-    ch.rule('C01.10', 'HttpProxyPlugin.get_descriptors: while the upstream connection is open it is registered for READING on every path, whether or not output is pending for it '
-                      '(read interest that waits for the write side to drain dead-locks a full-duplex tunnel under back-pressure)', 1)
+    ch.rule('C01.10', 'HttpProxyPlugin.get_descriptors and TcpUpstreamConnectionHandler.get_descriptors: while the upstream connection is open it is registered for READING on every path, whether or not output is pending for it '
+                      '(read interest that waits for the write side to drain dead-locks a full-duplex tunnel under back-pressure)', 2)
     ch.rule('C01.12', 'HttpProxyPlugin.read_from_descriptors: on a path where upstream data arrived and was handed on, the upstream is not released and the result is False -- '
                       'reading stops only at EOF (recv() is None), on a receive error, or when a plugin asks for it; never because a parser thinks the response is complete', 1)
     ch.rule('C01.8', 'socket send is called on a connection only by TcpConnection.send, itself only by TcpConnection.flush', 2)
@@ -514,9 +514,15 @@ def _relay_param(ch: Checker, rule: str, fn: FuncInfo, sink_call: str) -> None:
 
 def upstream_read_interest_check(ch: Checker, rule: str) -> None:
     prog = ch.prog
-    gd = prog.own_method('HttpProxyPlugin', 'get_descriptors')
+    for cls_name in ('HttpProxyPlugin', 'TcpUpstreamConnectionHandler'):
+        _read_interest_in(ch, rule, prog.own_method(cls_name, 'get_descriptors'))
+
+
+def _read_interest_in(ch: Checker, rule: str, gd: FuncInfo) -> None:
+    prog = ch.prog
     g = cfg_of(gd, prog, exc_edges=False)
     OPEN = {'self.upstream': True, 'self.upstream.closed': False, 'self.upstream.connection': True}
+    FD = 'self.upstream.connection.fileno()'
     n = 0
     bad = None
     for p in fpaths(g):
@@ -524,10 +530,10 @@ def upstream_read_interest_check(ch: Checker, rule: str) -> None:
         if p.exit_kind != 'return':
             continue
         last = p.stmts()[-1][1]
-        if not (isinstance(last, ast.Return) and isinstance(last.value, ast.Tuple) and len(last.value.elts) == 2 and isinstance(last.value.elts[0], ast.Name)):
-            ch.skip(rule, gd, 'return', 'get_descriptors does not return a pair of local lists; read interest not decided')
+        li = p.stmts()[-1][0]
+        if not (isinstance(last, ast.Return) and isinstance(last.value, ast.Tuple) and len(last.value.elts) == 2):
+            ch.skip(rule, gd, 'return', 'get_descriptors does not return a pair; read interest not decided')
             return
-        rname = last.value.elts[0].id
         fd = allfacts(p)
         if any(fd.get(k) is not None and fd.get(k) != v for k, v in OPEN.items()):
             continue      # the upstream is absent / closed on this path
@@ -535,19 +541,22 @@ def upstream_read_interest_check(ch: Checker, rule: str) -> None:
             continue
         n += 1
         sym = Sym(p)
+        first = last.value.elts[0]
         reg = False
-        for i, st in p.stmts():
-            for c in walk_no_nested(st):
-                if isinstance(c, ast.Call) and isinstance(c.func, ast.Attribute) and c.func.attr in ('append', 'add') and isinstance(c.func.value, ast.Name) and c.func.value.id == rname and c.args \
-                        and norm(sym.value(c.args[0], i)) == 'self.upstream.connection.fileno()':
-                    reg = True
-            if isinstance(st, (ast.Assign, ast.AnnAssign)):
-                tg = st.targets[0] if isinstance(st, ast.Assign) else st.target
-                if isinstance(tg, ast.Name) and tg.id == rname and st.value is not None and 'self.upstream.connection.fileno()' in norm(sym.value(st.value, i)):
-                    reg = True
+        # (a) the pair is written out in the return statement
+        if FD in norm(sym.value(first, li)):
+            reg = True
+        # (b) a local list filled on the way
+        if isinstance(first, ast.Name):
+            rname = first.id
+            for i, st in p.stmts():
+                for c in walk_no_nested(st):
+                    if isinstance(c, ast.Call) and isinstance(c.func, ast.Attribute) and c.func.attr in ('append', 'add') and isinstance(c.func.value, ast.Name) and c.func.value.id == rname and c.args \
+                            and norm(sym.value(c.args[0], i)) == FD:
+                        reg = True
         if not reg:
             bad = ('on a path where the upstream connection is open (%s) its descriptor is not registered for reading: while output is pending for the upstream nothing the '
-                   'upstream sends is read, and a peer that itself waits for its output to be read before reading more (echo / back-pressure in a tunnel) never makes progress'
-                   % ', '.join('%s=%s' % (k, fd[k]) for k in sorted(fd) if 'upstream' in k), p.describe(20))
+                   'upstream sends is read, and a peer that itself waits for its output to be read before reading more (echo / back-pressure in a tunnel, an early error response to a large '
+                   'upload) never makes progress' % ', '.join('%s=%s' % (k, fd[k]) for k in sorted(fd) if 'upstream' in k), p.describe(20))
     ch.check(bad is None and n > 0, rule, gd, 'read interest in the upstream', 'registered for reading on all %d path(s) with an open upstream' % n,
              bad[0] if bad else 'no path with an open upstream found', witness=bad[1] if bad else None)
